@@ -76,4 +76,32 @@ __attribute__((noinline)) void h_interact(void) {
     else { __verif_check(cells[c]._heating[HEATINGTERM_H] == heatH0[c]); }
   }
 }
+// propagate() is interact() without deposition: same exit classification, final position and remaining optical depth (identical terms),
+// and it leaves every cell untouched (two runs of the REAL code on the same packet, compared in one path)
+UP3 g_p2;
+__attribute__((noinline)) void h_propagate(void) {
+  DensitySubGrid &g = g_g.g; PhotonPacket &ph = g_p.p, &ph2 = g_p2.p; IonizationVariables *cells = g_c.c;
+  const int n[3] = {NCX, NCY, NCZ};
+  double cs[3], inv[3], an[3], p0[3], d[3];
+  for (int k = 0; k < 3; ++k) { cs[k] = nondet_double(); inv[k] = nondet_double(); an[k] = nondet_double(); p0[k] = nondet_double(); d[k] = nondet_double();
+    __CPROVER_assume(posd(cs[k]) & posd(inv[k]) & dom(an[k]) & dom(p0[k]) & dom(d[k]));
+    g._cell_size[k] = cs[k]; g._inv_cell_size[k] = inv[k]; g._anchor[k] = an[k]; g._number_of_cells[k] = n[k]; }
+  g._number_of_cells[3] = n[1] * n[2]; g._ionization_variables = cells;
+  __CPROVER_assume((d[0] != 0.) | (d[1] != 0.) | (d[2] != 0.));
+  double m0[NCELL], h0[NCELL];
+  for (int c = 0; c < NCELL; ++c) { const double dn = nondet_double(), xh = nondet_double(), xhe = nondet_double(); __CPROVER_assume((dn >= 0.) & (xh >= 0.) & (xhe >= 0.) & dom(dn) & dom(xh) & dom(xhe));
+    cells[c]._number_density = dn; cells[c]._ionic_fractions[ION_H_n] = xh; cells[c]._ionic_fractions[ION_He_n] = xhe; cells[c]._tracker = nullptr;
+    m0[c] = nondet_double(); h0[c] = nondet_double(); for (int i = 0; i < NUMBER_OF_IONNAMES; ++i) cells[c]._mean_intensity[i] = m0[c]; cells[c]._heating[HEATINGTERM_H] = h0[c]; cells[c]._heating[HEATINGTERM_He] = h0[c]; }
+  for (int i = 0; i < NUMBER_OF_IONNAMES; ++i) { const double sg = nondet_double(); __CPROVER_assume((sg >= 0.) & dom(sg)); ph._photoionization_cross_section[i] = sg; ph2._photoionization_cross_section[i] = sg; }
+  const double w = nondet_double(), en = nondet_double(), target = nondet_double(); __CPROVER_assume(posd(w) & posd(en) & posd(target));
+  ph._weight = ph2._weight = w; ph._energy = ph2._energy = en; ph._target_optical_depth = ph2._target_optical_depth = target;
+  ph._position = ph2._position = CoordinateVector<>(p0[0], p0[1], p0[2]); ph._direction = ph2._direction = CoordinateVector<>(d[0], d[1], d[2]);
+  for (int k = 0; k < 3; ++k) { const int ix = (int)__verif_fork_u(0, n[k] - 1); __CPROVER_assume((int_fast32_t)((p0[k] - an[k]) * inv[k]) == ix); }
+  const int_fast32_t o2 = g.propagate(ph2, TRAVELDIRECTION_INSIDE);
+  for (int c = 0; c < NCELL; ++c) { for (int i = 0; i < NUMBER_OF_IONNAMES; ++i) __verif_check(cells[c]._mean_intensity[i] == m0[c]); __verif_check(cells[c]._heating[HEATINGTERM_H] == h0[c] && cells[c]._heating[HEATINGTERM_He] == h0[c]); }
+  const int_fast32_t o1 = g.interact(ph, TRAVELDIRECTION_INSIDE);
+  __verif_check(o1 == o2);
+  __verif_check(ph._target_optical_depth == ph2._target_optical_depth);
+  for (int k = 0; k < 3; ++k) __verif_check(ph._position[k] == ph2._position[k]);
+}
 }
